@@ -458,6 +458,11 @@ func vC44Endpoints(t *testing.T, r *vRand, out *vOut) {
 	invalid := []string{"0", "-1", "+1", "1_0", " 1", "a", "1a", "0x10", "١", "1.0", "2147483648", "18446744073709551616", "\x00", "1&2", "%31"}
 
 	ns := []int{0, 1, 2, 3, 5, 7, 12, 100, 101, r.Intn(40), 13 + r.Intn(60), 102 + r.Intn(120)}
+	if os.Getenv("VERIF_TIER") == "thorough" || vN() >= 10000 { // thorough tier / failing-input search: more source sizes
+		for k := 0; k < 60; k++ {
+			ns = append(ns, r.Intn(30), r.Intn(260))
+		}
+	}
 	for _, n := range ns {
 		w.set(n)
 		for _, e := range vC44EPs {
